@@ -87,6 +87,36 @@ def check(run):
                     run.sample(dict(desc, galaxies=ngal, thread_counts='1..16'))
                 if run.too_many():
                     return
+    # ---- prange write-set monitor on the interpreted count/fill passes (decides all schedules of each case)
+    from .. import hodrace
+
+    nmon = 10 if run.quick else 150
+    for j in range(nmon):
+        case = c09.make_case(rng, ref, 7000 + j, sizes=[[2, 17, 60, 300][j % 4]])
+        if len(case['part']['pinds']) > 800:
+            keep = 800
+            case['part'] = {k2: v[:keep] for k2, v in case['part'].items()}
+        # a random of exactly 0 ties with the zero-width slice of a disabled first tracer; the interpreter
+        # (unlike numba) refuses to read that tracer's never-assigned parameters, so keep such ties out
+        case['halo']['hrandoms'][case['halo']['hrandoms'] == 0] = 1e-12
+        case['part']['prandoms'][case['part']['prandoms'] == 0] = 1e-12
+        nt = [16, 2, 3, 7, 5, 11, 13, 15][j % 8]
+        desc = dict(case['desc'], Nthread=nt, monitor='prange write-set')
+        run.progress(desc)
+        run.ev()
+        with warnings.catch_warnings():
+            warnings.simplefilter('ignore')
+            res = hodrace.run_gen_gals_monitored(GH, case['halo'], case['part'], case['tracers'], case['params'], nt, case['enable_ranks'], case['rsd'])
+        for kern, a in res.items():
+            run.count('write_set_cells_recorded', a['cells'])
+            run.count('write_set_regions', a['regions'])
+            if a['nconflicts']:
+                run.violation('hod-pass-shared-write', dict(kernel=kern, n_conflicting_elements=a['nconflicts'], example=a['conflicts'][0], **desc))
+            if a['nmulti'] or a['nunwritten']:
+                run.violation('hod-fill-pass-not-exactly-once', dict(kernel=kern, written_twice=a['multi_written'], unwritten=a['unwritten'], **desc))
+        run.nt(('write-set', j, nt))
+    if not run.counters.get('write_set_cells_recorded'):
+        run.note_inconclusive('prange write-set monitor recorded nothing')
     # ---- direct drives
     for N1, N2 in [(0, 0), (0, 5), (5, 0), (1, 1), (1, 1000), (1000, 1), (17, 16), (1003, 4099), (3, 2), (2, 40)]:
         for dt in (np.float64, np.int64):
